@@ -3,7 +3,9 @@ package props
 import (
 	"encoding/json"
 	"fmt"
+	"github.com/buildbuildio/pebbles/planner"
 	"strings"
+	"sync/atomic"
 	"testing"
 	"time"
 
@@ -35,6 +37,8 @@ type SubEvent struct {
 	// NoWait: the next event (of the same subscription, real websocket upstream only) is emitted without waiting
 	// for the delivery of this one - a burst; the frames are then read and checked in emission order
 	NoWait bool `json:"no_wait,omitempty"`
+	// Fragmented: the real websocket upstream sends this data message as a fragmented websocket message (two frames)
+	Fragmented bool `json:"fragmented,omitempty"`
 }
 
 // extraKey reports a key of got that the reference answer does not have at the same place (a helper field that was not removed).
@@ -83,6 +87,8 @@ type SubCase struct {
 	Subs   []SubSpec    `json:"subs"`
 	Events []SubEvent   `json:"events"`
 	RealWS bool         `json:"real_ws,omitempty"` // upstream is a real graphql-ws server on loopback (queryer.Subscribe is exercised)
+	// ChangingData: the data of all services changes between events (an event about the same object must carry its current fields)
+	ChangingData bool `json:"changing_data,omitempty"`
 }
 
 func subRootField(union *ast.Schema, op *opgen.Op) (string, *ast.OperationDefinition) {
@@ -135,6 +141,27 @@ type subRuntime struct {
 	query  string
 	vars   map[string]interface{}
 	opName *string
+	// childLevels: per service the number of plan levels below the root step at which it appears (nil: unknown)
+	childLevels map[string]int
+}
+
+// childLevelsPerService is depthsPerService without the root steps (the root step of a subscription is the upstream subscription).
+func childLevelsPerService(plan *planner.QueryPlan) map[string]int {
+	levels := map[string]map[int]bool{}
+	walkSteps(plan.RootSteps, 0, func(s *planner.QueryPlanStep, depth int) {
+		if depth == 0 {
+			return
+		}
+		if levels[s.URL] == nil {
+			levels[s.URL] = map[int]bool{}
+		}
+		levels[s.URL][depth] = true
+	})
+	res := map[string]int{}
+	for u, l := range levels {
+		res[u] = len(l)
+	}
+	return res
 }
 
 func checkC17(c *SubCase) (*ev.Failure, string) {
@@ -196,6 +223,9 @@ func checkC17(c *SubCase) (*ev.Failure, string) {
 	for i, sp := range c.Subs {
 		rt := &subRuntime{spec: sp}
 		subs[i] = rt
+		if plan, _, perr := planOf(&ExecCase{World: c.World, Config: c.Config, Op: sp.Op}); perr == nil && plan != nil {
+			rt.childLevels = childLevelsPerService(plan)
+		}
 		payload := map[string]interface{}{"query": sp.Op.Query}
 		if sp.Op.Variables != nil {
 			payload["variables"] = sp.Op.Variables
@@ -294,10 +324,18 @@ func checkC17(c *SubCase) (*ev.Failure, string) {
 		delivered++
 		return nil, ""
 	}
+	atomic.StoreInt32(&c.World.Store.Epoch, 0)
+	defer atomic.StoreInt32(&c.World.Store.Epoch, 0)
 	for k, e := range c.Events {
 		rt := subs[e.Sub]
 		sp := rt.spec
 		var expected map[string]interface{}
+		if len(pending) == 0 {
+			net.Reset() // the calls logged from here on belong to this event
+		}
+		if c.ChangingData && len(pending) == 0 {
+			atomic.AddInt32(&c.World.Store.Epoch, 1) // nothing is in flight: from here on every service answers with other values
+		}
 		if e.KeepAlive && c.RealWS {
 			// a keep-alive of the service is not an event and ends nothing
 			rt.ws.Send(map[string]interface{}{"type": "ka"})
@@ -331,7 +369,11 @@ func checkC17(c *SubCase) (*ev.Failure, string) {
 				resp.Errors = gqlerrors.ErrorList{gqlerrors.NewError("PARTIAL", fmt.Errorf("partial failure %d", k))}
 			}
 			if c.RealWS {
-				if err := rt.ws.Send(map[string]interface{}{"type": "data", "id": rt.ws.ID, "payload": payload}); err != nil {
+				send := rt.ws.Send
+				if e.Fragmented {
+					send = rt.ws.SendFragmented // one message in two websocket frames
+				}
+				if err := send(map[string]interface{}{"type": "data", "id": rt.ws.ID, "payload": payload}); err != nil {
 					return ev.Failf("upstream-closed", "the gateway closed the upstream connection of an active subscription: %v", err), ""
 				}
 			} else {
@@ -344,12 +386,21 @@ func checkC17(c *SubCase) (*ev.Failure, string) {
 		if e.NoWait && c.RealWS && k+1 < len(c.Events) && c.Events[k+1].Sub == e.Sub {
 			continue // burst: the next event follows at once
 		}
+		single := len(pending) == 1
 		for _, p := range pending {
 			if f, skip := verify(p); f != nil || skip != "" {
 				return f, skip
 			}
 		}
 		pending = nil
+		// stitching one event costs what a query costs (C12): per service at most one batched call per plan level
+		if single && !c.RealWS && !e.Error && !e.Partial && rt.childLevels != nil && c.Config.MaxBatch == 0 {
+			for url, n := range callsPerService(net.Snapshot()) {
+				if n > rt.childLevels[url] {
+					return ev.Failf("calls-exceed", "event %d of subscription %s (%s): service %s received %d batched calls for one event but appears at %d plan level(s) below the root", k, sp.ID, trunc(sp.Op.Query, 150), url, n, rt.childLevels[url]), ""
+				}
+			}
+		}
 	}
 	// nothing else is pending on any connection (no duplicates)
 	for i, cc := range conns {
@@ -375,7 +426,8 @@ func genSubCase(t *rapid.T, rec *ev.Recorder) (*SubCase, []string) {
 	if err != nil {
 		t.Fatalf("generator bug: %v", err)
 	}
-	c := &SubCase{World: w, Conns: rapid.IntRange(1, 2).Draw(t, "conns"), RealWS: rapid.IntRange(0, 4).Draw(t, "realws") == 0}
+	c := &SubCase{World: w, Conns: rapid.IntRange(1, 2).Draw(t, "conns"), RealWS: rapid.IntRange(0, 4).Draw(t, "realws") == 0,
+		ChangingData: rapid.IntRange(0, 2).Draw(t, "changingdata") == 0}
 	c.Config.IDHint = rapid.IntRange(0, 2).Draw(t, "hint") == 0
 	if !gateClosed("sub.cachedPlanner") && rapid.IntRange(0, 2).Draw(t, "cached") == 0 {
 		c.Config.Planner, c.Config.TTLNs = "cached", int64(time.Hour)
@@ -427,6 +479,10 @@ func genSubCase(t *rapid.T, rec *ev.Recorder) (*SubCase, []string) {
 			e.KeepAlive = true
 			labels = append(labels, "upstreamKeepAlive")
 		}
+		if c.RealWS && !e.Error && rapid.IntRange(0, 4).Draw(t, "evfrag") == 0 {
+			e.Fragmented = true
+			labels = append(labels, "upstreamFragmentedMessage")
+		}
 		if !e.Error && rapid.IntRange(0, 7).Draw(t, "evpartial") == 0 {
 			e.Partial = true
 			labels = append(labels, "upstreamErrorsWithData")
@@ -452,7 +508,7 @@ func genSubCase(t *rapid.T, rec *ev.Recorder) (*SubCase, []string) {
 
 func TestC17(t *testing.T) {
 	rec := ev.Get("C17")
-	rec.Rule = "worlds with Subscription fields whose payload crosses services x 1..3 generated subscription operations over 1..2 client connections (harness-owned net.Pipe through an http.Hijacker) x 0..8 upstream events in a drawn order, each event's root value drawn from the store; upstream either an in-process scripted Queryer (80%) or a real graphql-ws server on loopback behind the real MultiOpQueryer.Subscribe (20%, also upstream errors); the upstream answers every event by executing the gateway's own root sub-query on the owning service's schema. Oracle: after each emission the subscribing connection receives exactly one data message with that subscription's id whose payload equals the reference executor on the union schema (pruned), upstream errors are forwarded as errors, nothing extra arrives; non-trivial = >=2 events and a payload needing >=1 child step, or >=2 concurrent subscriptions; distinct by hash(case)"
+	rec.Rule = "worlds with Subscription fields whose payload crosses services x 1..3 generated subscription operations over 1..2 client connections (harness-owned net.Pipe through an http.Hijacker) x 0..8 upstream events in a drawn order, each event's root value drawn from the store; in a third of the cases every leaf value of every service changes between events (data epochs); selections reach depth 3..6; the real upstream sends keep-alives and a fifth of its data messages in two websocket frames; upstream either an in-process scripted Queryer (80%) or a real graphql-ws server on loopback behind the real MultiOpQueryer.Subscribe (20%, also upstream errors); the upstream answers every event by executing the gateway's own root sub-query on the owning service's schema. Oracle: after each emission the subscribing connection receives exactly one data message with that subscription's id whose payload equals the reference executor on the union schema (pruned), upstream errors are forwarded as errors, nothing extra arrives, and (scripted upstream, default batch size) per event and service the number of batched calls is at most the number of plan levels below the root; non-trivial = >=2 events and a payload needing >=1 child step, or >=2 concurrent subscriptions; distinct by hash(case)"
 	defer census.dump("C17")
 	rapid.Check(t, func(t *rapid.T) {
 		c, labels := genSubCase(t, rec)
